@@ -1,6 +1,7 @@
 (* C09 -- a partial reap shows finished batches exactly and everything else as missing. *)
 From XV Require Import Prelude Grid Perm Runner Batch Crop GenReap BridgeReap
      GridProofs PermProofs RunnerProofs BatchProofs AssocProofs CropProofs ReapProofs.
+From XV Require Sched GenPublish BridgePublish.
 Open Scope Z_scope.
 
 (* For ANY set of finished batches (at least one), reaping with allow_incomplete returns the
@@ -90,6 +91,12 @@ Example C09_example :
         VL [VZ 1; VZ 4; VZ 2; VL [VZ 2; VZ 4]; VZ 0; VL [VZ 1; VZ 3]]].
 Proof. vm_compute. reflexivity. Qed.
 
+(* "finished" means published: a result under construction has a temporary name that the result glob (used by
+   the progress count and by the reference result of a partial reap) does not match (GenPublish) *)
+Theorem C09_unpublished_results_invisible : GenPublish.gen_publish = Sched.publish_atomic.
+Proof. exact BridgePublish.bridge_publish. Qed.
+
+Print Assumptions C09_unpublished_results_invisible.
 Print Assumptions C09_partial.
 Print Assumptions C09_then_full_reap_exact.
 Print Assumptions C09_refused.
